@@ -46,3 +46,8 @@ CHECKS["C12"] = ("exploration",
    "Shared-string tables are written with an explicit split plan; for small tables every single legal cut point x both re-compression choices is enumerated (pairs in thorough), large tables get random plans and forced cuts at the record limit; every string is referenced by a uniquely placed cell so that a mis-consumed fragment shows as a shift of all later strings. Sheet name, LABEL and FORMULA+STRING values are checked in 8-bit and 16-bit storage.",
    "trusted base: the SST/CONTINUE reference encoder; string headers are never split",
    "DESIGN.md §7 C12")
+CHECKS["C03"] = ("exploration",
+   "runtime monitoring: generated xlsb workbooks with interleaved ignorable records vs reference-model oracle; RK words swept through files (all 2^32 in thorough)",
+   "Logical workbooks are written by an independent xlsb encoder with every cell record kind and 0..n ignorable records (real/future ids, 1-2 byte ids, 1-4 byte lengths, header-like payload bytes) between any two records, then read through worksheet_range / worksheet_range_ref and compared with the model; RK decoding is swept through generated sheets of BrtCellRk cells against a reference decoder.",
+   "trusted base: the xlsb reference encoder; minimal varint encodings; block records only in pairs",
+   "DESIGN.md §7 C03")
